@@ -796,10 +796,15 @@ def selftest_determinism(prop, nseeds):
             for o in outs.all:
                 execs += 1
                 k = o["seed"]
-                d = (o["digest"], json.dumps(o.get("violations"), sort_keys=True))
+                # (the detail text of a violation class a process has already reported four times is blanked: verdicts are compared by rule and signature)
+                d = (o["digest"], json.dumps(sorted((v["rule"], v["signature"]) for v in (o.get("violations") or []))))
                 if k in ref and ref[k] != d:
                     bad += 1
                     print("NONDETERMINISTIC seed", k, ref[k][0], d[0])
+                    if ref[k][0] == d[0]:
+                        a, b = ref[k][1], d[1]
+                        i = next((x for x in range(min(len(a), len(b))) if a[x] != b[x]), min(len(a), len(b)))
+                        print("   same digest, verdicts differ at %d:\n   %s\n   %s" % (i, a[max(0, i - 200):i + 200], b[max(0, i - 200):i + 200]))
                 ref.setdefault(k, d)
             log("GOMAXPROCS=%s workers=%d pass %d: %d runs, %d mismatches so far" % (gmp, jobs, rep, len(outs), bad))
     print("determinism %s: %d seeds, %d executions, %d mismatches" % (prop, len(ref), execs, bad))
